@@ -368,7 +368,7 @@ class ProcessTaskEvent(Unit):
 # ================================================================================================
 # process_workflow_event (status requests)
 # ================================================================================================
-WFACTS = ["A", "SG", "PD", "RS"]
+WFACTS = ["A", "SG", "PD", "RS", "UB"]
 
 
 def pwe_links(v):
@@ -386,7 +386,7 @@ def w02_succeeded_justified(v):
     return IMPLIES(
         AND(EQ(v["new"], st.SUCCEEDED), NE(v["old"], st.SUCCEEDED)),
         OR(AND(EQ(v["old"], st.PAUSED), IN(v["req"], [st.RUNNING, st.RESUMING]),
-               NOT(v["A"]), NOT(v["SG"]), NOT(v["PD"])),
+               NOT(v["A"]), NOT(v["SG"]), NOT(v["PD"]), NOT(v["UB"])),
            # P4: a provider forcing `succeeded` on a running workflow is outside the quantifier
            AND(EQ(v["req"], st.SUCCEEDED), EQ(v["old"], st.RUNNING))))
 
@@ -404,8 +404,9 @@ def w03_resume_completed(v):
     return IMPLIES(
         AND(EQ(v["old"], st.PAUSED), IN(v["req"], [st.RUNNING, st.RESUMING])),
         AND(NOT(v["raised"]),
-            IMPLIES(finished, EQ(v["new"], st.SUCCEEDED)),
-            IMPLIES(NOT(finished), EQ(v["new"], v["req"]))))
+            IMPLIES(AND(finished, NOT(v["UB"])), EQ(v["new"], st.SUCCEEDED)),
+            IMPLIES(AND(finished, v["UB"]), AND(EQ(v["new"], st.FAILED), EQ(v["n_logged"], 1))),
+            IMPLIES(NOT(finished), AND(EQ(v["new"], v["req"]), EQ(v["n_logged"], 0)))))
 
 
 def w04_terminal_rows(v):
@@ -468,9 +469,13 @@ def w_change_is_requested(v):
         st.RUNNING: [st.RUNNING, st.SUCCEEDED], st.RESUMING: [st.RESUMING, st.SUCCEEDED],
     }
     cl = []
+    # a completion discovered by the request fails instead when a partially satisfied join is unreachable
+    ub_fail = AND(v["UB"], EQ(v["new"], st.FAILED))
     for req, outs in allowed.items():
-        cl.append(IMPLIES(AND(EQ(v["req"], req), NE(v["new"], v["old"])), IN(v["new"], outs)))
-    cl.append(IMPLIES(AND(NOTIN(v["req"], list(allowed)), NE(v["new"], v["old"])), EQ(v["new"], v["req"])))
+        extra = ub_fail if st.SUCCEEDED in outs else False
+        cl.append(IMPLIES(AND(EQ(v["req"], req), NE(v["new"], v["old"])), OR(IN(v["new"], outs), extra)))
+    cl.append(IMPLIES(AND(NOTIN(v["req"], list(allowed)), NE(v["new"], v["old"])),
+                      OR(EQ(v["new"], v["req"]), AND(EQ(v["req"], st.SUCCEEDED), ub_fail))))
     return AND(*cl)
 
 
@@ -487,8 +492,8 @@ PWE_OBLIGATIONS = {
         "process_workflow_event raises nothing for any valid status request"),
     "C02.pwe.change_is_requested": (["C02", "C04"], w_change_is_requested,
         "a request changes the status only to the requested status or its lifecycle-prescribed variant"),
-    "C03.pwe.resume_completed": (["C03", "C09"], w03_resume_completed,
-        "resume of a finished paused workflow completes it; otherwise the requested running status"),
+    "C03.pwe.resume_completed": (["C03", "C09", "C07"], w03_resume_completed,
+        "resume of a finished paused workflow completes it (failed with one UnreachableJoinError per barrier if a partially satisfied join can no longer run); otherwise the requested running status"),
     "C04.pwe.terminal_rows": (["C04"], w04_terminal_rows,
         "failed/canceled are final; succeeded changes only to failed on an explicit failed request"),
     "C09.pwe.pause_request": (["C09"], w09_pause_request,
@@ -539,9 +544,13 @@ class ProcessWorkflowEvent(Unit):
                     return raw_staged(eng)
                 return [{"id": "staged_task", "route": 0, "ready": True}] if eng.branch(F["SG"].z) else []
 
+            log = []
+            cond = AbstractObj("conductor", log_error=Stub("log_error", lambda eng, err, **kw: log.append((err, kw))))
             ws = AbstractObj("workflow_state", status=old, has_active_tasks=F["A"],
                              has_staged_tasks=F["SG"], has_paused_tasks=F["PD"],
-                             staged=property(raw_staged),
+                             staged=property(raw_staged), conductor=cond,
+                             get_unreachable_barriers=Stub("get_unreachable_barriers", lambda eng: (
+                                 [{"id": "join_task", "route": 0}] if eng.branch(F["UB"].z) else [])),
                              get_staged_tasks=Stub("get_staged_tasks", get_staged_tasks))
             event = e.call(events.WorkflowExecutionEvent, [req], {})
             raised = None
@@ -551,12 +560,13 @@ class ProcessWorkflowEvent(Unit):
                 raised = r
             v["new"] = ws._attrs["status"]
             v["raised"] = raised is not None
+            v["n_logged"] = len(log)
             if first[0]:
                 ctx.canary()
                 first[0] = False
             for name, (props, fn, text) in PWE_OBLIGATIONS.items():
                 ctx.oblige(name, fn(v), v, info={"old": old_c, "req": req_c})
-            ctx.crosscheck({"new": v["new"], "raised": raised.cls.__name__ if raised else None},
+            ctx.crosscheck({"new": v["new"], "raised": raised.cls.__name__ if raised else None, "n_logged": len(log)},
                            rate=1.0 if ctx.tier == "thorough" else 0.5)
 
         ctx.eng.explore(thunk)
@@ -572,13 +582,17 @@ class ProcessWorkflowEvent(Unit):
         ws.staged = [{"id": "staged_task", "route": 0, "ready": inputs["SG"]}] if inputs["RS"] else []
         ws.get_staged_tasks = lambda filtered=True: (
             ws.staged if not filtered else ([{"id": "staged_task", "route": 0, "ready": True}] if inputs["SG"] else []))
+        logged = []
+        ws.get_unreachable_barriers = lambda: [{"id": "join_task", "route": 0}] if inputs["UB"] else []
+        ws.conductor = WS()
+        ws.conductor.log_error = lambda e, **kw: logged.append(type(e).__name__)
         raised = None
         try:
             machines.WorkflowStateMachine.process_workflow_event(
                 ws, events.WorkflowExecutionEvent(inputs["req"]))
         except Exception as e:
             raised = type(e).__name__
-        return {"new": ws.status, "raised": raised}
+        return {"new": ws.status, "raised": raised, "n_logged": len(logged)}
 
     def clause(self, name):
         return PWE_OBLIGATIONS[name][1]
